@@ -151,6 +151,8 @@ def run_kani_units(kani_cfgs, wr, work, tier):
         res['undecided'].append('kani %s' % r['status'])
     if r['compile_error']:
         res['undecided'].append('kani build/harness error: %s' % r['compile_error'])
+    name_status = {}
+    named_in_h = {}
     for h in hs:
         info = meta[h]
         hr = r['harnesses'].get(h)
@@ -162,24 +164,29 @@ def run_kani_units(kani_cfgs, wr, work, tier):
         names, ok = [], []
         unreachable = 0
         safety_total = safety_ok = 0
+        covers_sat = covers_dead = 0
         safety_fail = []
         for c in hr['checks']:
             d = c['desc']
             if d.startswith('OBL '):
                 n = d[4:].strip()
-                names.append(n)
-                if c['status'] == 'SUCCESS':
-                    ok.append(n)
-                elif c['status'] == 'FAILURE':
+                st = name_status.setdefault(n, {'SUCCESS': [], 'FAILURE': [], 'UNREACHABLE': [], 'OTHER': [], 'bounded': []})
+                key = c['status'] if c['status'] in ('SUCCESS', 'FAILURE', 'UNREACHABLE') else 'OTHER'
+                st[key].append(h)
+                if key == 'SUCCESS':
+                    st['bounded'].append(bounded)
+                if key == 'FAILURE':
                     res['failed'].setdefault(n, []).append('%s: FAILURE (harness %s)' % (c['loc'], h))
-                elif c['status'] == 'UNREACHABLE':
-                    res['undecided'].append('obligation %s is UNREACHABLE in harness %s (vacuous)' % (n, h))
-                else:
-                    res['undecided'].append('obligation %s: %s' % (n, c['status']))
+                named_in_h.setdefault(h, set()).add(n)
             elif d.startswith('COVER '):
+                if c['status'] == 'UNREACHABLE':
+                    # cover in a branch that is dead for this (const-generic) instantiation of the harness
+                    covers_dead += 1
+                    continue
                 res['covers']['total'] += 1
                 if c['status'] == 'SATISFIED':
                     res['covers']['satisfied'] += 1
+                    covers_sat += 1
                 else:
                     res['undecided'].append('vacuity: cover "%s" in %s is %s' % (d, h, c['status']))
             else:
@@ -193,27 +200,42 @@ def run_kani_units(kani_cfgs, wr, work, tier):
                     safety_fail.append('%s @ %s' % (d, c['loc']))
                 else:
                     res['undecided'].append('%s: check "%s" is %s' % (h, d, c['status']))
+        if covers_sat == 0 and hr['status'] == 'SUCCESSFUL':
+            res['undecided'].append('vacuity: harness %s has no satisfied cover' % h)
         sname = '%s/%s/safety' % (info['unit'], h)
-        names.append(sname)
         if safety_fail:
             res['failed'].setdefault(sname, []).extend(safety_fail)
-        elif hr['status'] == 'SUCCESSFUL' or (safety_total == safety_ok and safety_total > 0):
-            ok.append(sname)
+            sok = False
+        else:
+            sok = hr['status'] == 'SUCCESSFUL' or (safety_total == safety_ok and safety_total > 0)
         res['unreachable'] += unreachable
         res['solver_s'] += hr['time_s'] or 0.0
         res['harnesses'].append({'harness': h, 'unit': info['unit'], 'kind': info['kind'], 'bound': info.get('bound'),
                                  'fn': info.get('fn'), 'status': hr['status'], 'checks': len(hr['checks']),
-                                 'named_obligations': len(names) - 1, 'safety_checks': safety_total,
+                                 'named_obligations': len(named_in_h.get(h, ())), 'safety_checks': safety_total,
                                  'safety_discharged': safety_ok, 'unreachable': unreachable, 'time_s': hr['time_s']})
         if bounded:
-            res['bounded'] += names
-            res['bounded_discharged'] += ok
+            res['bounded'].append(sname)
+            if sok:
+                res['bounded_discharged'].append(sname)
         else:
-            res['obligations'] += names
-            res['discharged'] += ok
-        res.setdefault('safety_checks_discharged', 0)
-        if not bounded:
-            res['safety_checks_discharged'] += safety_ok
+            res['obligations'].append(sname)
+            if sok:
+                res['discharged'].append(sname)
+            res['safety_checks_discharged'] = res.get('safety_checks_discharged', 0) + safety_ok
+    # named obligations are aggregated over the harnesses that state them: discharged iff SUCCESS in at least one
+    # harness and FAILURE in none; an obligation that is UNREACHABLE everywhere is vacuous (undecided)
+    for n, st in name_status.items():
+        if st['OTHER']:
+            res['undecided'].append('obligation %s: no verdict in %s' % (n, st['OTHER']))
+        all_bounded = bool(st['bounded']) and all(st['bounded'])
+        if not st['SUCCESS'] and not st['FAILURE']:
+            res['undecided'].append('obligation %s is UNREACHABLE in every harness that states it (vacuous)' % n)
+            continue
+        is_bounded = all_bounded or (not st['SUCCESS'] and all(meta[h]['kind'] != 'complete' for h in st['FAILURE']))
+        (res['bounded'] if is_bounded else res['obligations']).append(n)
+        if st['SUCCESS'] and not st['FAILURE']:
+            (res['bounded_discharged'] if is_bounded else res['discharged']).append(n)
     return res
 
 
@@ -287,9 +309,9 @@ def run_oracle(o, wr, seed, failed_names, iters):
     except subprocess.TimeoutExpired:
         t = 'oracle timed out'
     fails = []
-    for m in re.finditer(r'^VERIF-ORACLE-FAIL obligation=(\S+) (.*)$', t, re.M):
+    for m in re.finditer(r'VERIF-ORACLE-FAIL obligation=(\S+) (.*)$', t, re.M):
         fails.append({'obligation': m.group(1), 'input': m.group(2)[:2000]})
-    m = re.search(r'^VERIF-ORACLE-DONE cases=(\d+)', t, re.M)
+    m = re.search(r'VERIF-ORACLE-DONE cases=(\d+)', t)
     ran = bool(m)
     return {'cmd': 'VERIF_SEED=%d VERIF_ITERS=%d %s' % (seed, iters, ' '.join(cmd)), 'ran': ran,
             'cases': int(m.group(1)) if m else 0, 'fails': fails, 'wall_s': time.time() - t0,
